@@ -412,12 +412,23 @@ def rule_characters(ctx):
     """O3.5 is part of the table (two-character cells with the second character disallowed); here: no early exit."""
     model = ctx.model
     info = model.func(BASE + ".validate_characters")
-    exits = [n for n in walk_own(info.node) if isinstance(n, (ast.Break, ast.Return, ast.Continue))]
+    # only exits that leave a *loop* early count (round 11: a guard `if allowed is None: return` before the loop and
+    # `continue` after a passed test were reported on a refactoring - false alarm); the table decides the rest
+    exits = [n for loop in walk_own(info.node) if isinstance(loop, (ast.For, ast.While))
+             for statement in loop.body for n in ast.walk(statement) if isinstance(n, (ast.Break, ast.Return))]
     if exits:
         ctx.res.fail("O3.5", "validate_characters visits every character", "fields.AbstractFieldFormat.validate_characters:O3.5:exit",
                      where_of(model, info.qualname), "loop over the cell's characters contains %s" % type(exits[0]).__name__.lower())
     else:
         ctx.res.ok("O3.5", "validate_characters has no break/return/continue in its character loop", True)
+
+
+def rule_length_membership(ctx):
+    """O1.3 (shared with C01, round 11): the length guard *is* Range.validate - "rejected when its number of characters
+    lies outside the declared length" holds only if membership is decided for every limit, zero included."""
+    from .c01 import rule_membership
+
+    rule_membership(ctx)
 
 
 def rule_ods_cell_texts(ctx):
@@ -445,4 +456,4 @@ def rule_every_cell_reaches_its_field(ctx):
     protocol.validate_row_table(ctx, "O3.7", aspects=())
 
 
-RULES = [rule_template_integrity, rule_validated, rule_guard_state, rule_characters, rule_ods_cell_texts, rule_excel_cell_texts, rule_every_cell_reaches_its_field, rule_module_state]
+RULES = [rule_template_integrity, rule_validated, rule_guard_state, rule_characters, rule_length_membership, rule_ods_cell_texts, rule_excel_cell_texts, rule_every_cell_reaches_its_field, rule_module_state]
